@@ -70,7 +70,7 @@ func TestDebugC07(t *testing.T) {
 		fmt.Println("U", i, n)
 	}
 	for si, sub := range c.Subsets {
-		keep := resolveSubset(sub, len(u.names))
+		keep := resolveSubset(sub, u.names)
 		dir := newDir()
 		files := map[string][]byte{}
 		for i, rel := range u.names {
